@@ -18,6 +18,8 @@ fn tame(op: Op) -> Option<Op> {
     match op {
         Op::Push(_) | Op::Pop | Op::Truncate(_) | Op::Clear | Op::PushChar(_) | Op::PushStr(_) | Op::FPush(_) | Op::FPop | Op::FTruncate(_) | Op::FClear => Some(op),
         Op::Item(i, inner) => tame(*inner).map(|o| Op::Item(i, Box::new(o))),
+        Op::Last(inner) => tame(*inner).map(|o| Op::Last(Box::new(o))),
+        Op::SetField(..) => Some(op),
         _ => None,
     }
 }
@@ -238,7 +240,7 @@ pub fn run(reg: &[Box<dyn TypeOps>], defaults: &[Option<&'static str>], cfg: &Cf
             // pushes, pops, truncations, item edits on the containers (operations that cannot panic). A block of its own: what each
             // message must contain comes from the abstract machine of the operation suite (a `Vec` of items), run next to the same
             // operations on a scratch buffer of the send buffer's size
-            let editable = matches!(sh, Shape::Vec(..) | Shape::Str(..) | Shape::Flex(..));
+            let editable = matches!(sh, Shape::Vec(..) | Shape::Str(..) | Shape::Flex(..) | Shape::UStruct(..));
             if editable && rng.chance(2, 3) {
                 let cap = 2 * max.max(t.min_size());
                 let base = { let p = big.as_ptr() as usize; (16 - p % 16) % 16 };
